@@ -1,0 +1,33 @@
+//go:build verif
+
+package lock
+
+// Verification-only accessors (compiled in only with the `verif` build tag).
+
+// VerifQueueCount returns the number of per-key queue objects the lock keeps.
+func VerifQueueCount(l Lock) int {
+	n := 0
+	l.(*lock).queues.Range(func(_, _ any) bool { n++; return true })
+	return n
+}
+
+// VerifQueueKeys returns the keys that have a per-key queue object.
+func VerifQueueKeys(l Lock) []string {
+	var keys []string
+	l.(*lock).queues.Range(func(k, _ any) bool { keys = append(keys, k.(string)); return true })
+	return keys
+}
+
+// VerifKeyOf returns the key under which the queue object q (the "q" value of a lock.enq / lock.rem
+// trace event) is stored.
+func VerifKeyOf(l Lock, q any) (string, bool) {
+	key, ok := "", false
+	l.(*lock).queues.Range(func(k, v any) bool {
+		if v == q {
+			key, ok = k.(string), true
+			return false
+		}
+		return true
+	})
+	return key, ok
+}
